@@ -23,3 +23,5 @@ import SJ.Props.C01Ap
 #print axioms SJ.Props.C01Ap.c01_ap_token_extra_member
 #print axioms SJ.Props.C01Ap.c01_ap_token_eof
 #print axioms SJ.Props.C01Ap.c01_ap_accepts_iff_partial
+#print axioms SJ.Props.C01Ap.c01_ap_sound
+#print axioms SJ.Props.C01Ap.c01_ap_accepts_iff
